@@ -6,7 +6,7 @@ calls into dependencies stay opaque, no path feasibility is decided and no solve
 Workspace-local helpers are inlined by parameter substitution (bounded depth).
 """
 import re
-from facts import short
+from facts import short, qshort
 
 MAX_DEPTH = 6
 MAX_PATHS = 400
@@ -191,7 +191,8 @@ class World:
         return None
 
 class Interp:
-    def __init__(self, world, inline=True, inline_filter=None):
+    def __init__(self, world, inline=True, inline_filter=None, resolver=None):
+        self.resolver = resolver
         self.w = world
         self.frame_counter = 0
         self.inline = inline
@@ -201,8 +202,8 @@ class Interp:
     # ------------------------------------------------------------ entry
     def run(self, fn, args=None, path=None, depth=0, subst=None):
         """Enumerate acyclic paths of `fn`. Returns list[Result_]."""
-        self.frame_counter += 1
-        frame = self.frame_counter
+        self.w.frame_counter = getattr(self.w, "frame_counter", 0) + 1
+        frame = self.w.frame_counter
         path = path or Path()
         body = fn["body"]
         cr = fn["_crate"]
@@ -324,6 +325,8 @@ class Interp:
         k = loc[0]
         if k == "C":
             return ("bytes", loc[1])
+        if k == "T":
+            return self._patched(path, loc, path.store.get(loc, loc[1]))
         if k == "R":
             return self.read_region(path, loc)
         if k == "V":
@@ -404,6 +407,8 @@ class Interp:
                     return ("unknown", "overlapping-region-write", key)
         if base[0] == "V":
             b = self.content_nopatch(path, base)
+        elif base[0] == "T":
+            b = st.get(base, base[1])
         else:
             b = st.get(base, ("init", base))
         if b == ("init", base):
@@ -527,6 +532,8 @@ class Interp:
             return ("bytes", b)
         if "zst" in v:
             return ("unit",)
+        if "static" in v:
+            return ("static", v["static"])
         return ("unknown", "constval", str(v)[:40])
 
     def operand(self, ctx, path, o):
@@ -547,7 +554,6 @@ class Interp:
         fake = {"key": fn["key"] + f"::promoted[{idx}]", "path": fn["path"], "body": pb, "_crate": fn["_crate"],
                 "promoted": fn["promoted"], "span": fn["span"], "crate": fn["crate"]}
         sub = Interp(self.w, inline=False)
-        sub.frame_counter = self.frame_counter + 1000 * (idx + 1)
         res = sub.run(fake, args=[], path=Path(), depth=ctx["depth"] + 1, subst=ctx["subst"])
         for r in res:
             if r.kind == "return":
@@ -573,6 +579,12 @@ class Interp:
         if k == "cast":
             v = self.operand(ctx, path, rv["op"])
             ck = rv["ck"]
+            if isinstance(v, tuple) and v and v[0] == "vecptr":
+                return ("ptr", ("T", v[1][1]))
+            if ck in ("Transmute", "PtrToPtr") and isinstance(v, tuple) and v and v[0] == "field" and v[2] == 0 \
+                    and isinstance(v[1], tuple) and v[1][0] == "field" and v[1][2] == 0 and "[u8]" in self.ty_s(ctx, rv["to"]):
+                # Box<[u8]> held as an opaque value: (box.0.0 as *const [u8])
+                return ("ptr", ("T", ("bytes_of", v[1][1])))
             if ck.startswith("ptrcoerce") or ck in ("PtrToPtr", "Transmute") and is_ptr(v):
                 if ck.startswith("ptrcoerce:ReifyFnPointer") or ck.startswith("ptrcoerce:ClosureFnPointer"):
                     return v
@@ -731,7 +743,7 @@ class Interp:
     # ------------------------------------------------------------ calls
     def callee_name(self, ctx, ce):
         full = ce.get("r_full") if ce.get("r_path") and ce.get("r_kind") == "item" else ce.get("full")
-        return self.tysub(ctx, short(full or "?"))
+        return self.tysub(ctx, qshort(full or "?"))
 
     def do_call(self, ctx, path, t, bi, blk, visited, out):
         fn = ctx["fn"]
@@ -772,6 +784,8 @@ class Interp:
                 target = self.w.find_fn(rc, ce["r_path"])
             if target is None:
                 target = self.w.find_fn(ce.get("crate"), p)
+            if target is None and self.resolver is not None and not ce.get("r_path"):
+                target = self.resolver(self, ctx, ce)
             if target is not None and self.inline_filter and not self.inline_filter(target):
                 target = None
         if target is not None:
@@ -815,10 +829,15 @@ class Interp:
             return None
         return t["t"]
 
-    def argval(self, path, a):
+    def argval(self, path, a, depth=0):
         """Location-independent value of an argument: pointers become the content they point to."""
         if is_ptr(a):
-            return self.content(path, a[1])
+            c = self.content(path, a[1])
+            if isinstance(c, tuple) and c and c[0] == "agg" and depth < 3 and any(is_ptr(x) for x in c[2]):
+                return ("agg", c[1], tuple(self.argval(path, x, depth + 1) for x in c[2]))
+            return c
+        if isinstance(a, tuple) and a and a[0] == "agg" and depth < 3:
+            return ("agg", a[1], tuple(self.argval(path, x, depth + 1) for x in a[2]))
         return a
 
     def event(self, path, kind, name, ce, args, site, blk, dest_ty, ctx, extra=None):
@@ -836,7 +855,8 @@ class Interp:
         res = ("call", name, vals)
         if p in RNG or (ce.get("r_path") in RNG):
             self.w.site_counter += 1
-            res = ("rng", name, site, dest_ty)
+            w0 = args[0][1] if (args and isinstance(args[0], tuple) and args[0][0] == "int") else dest_ty
+            res = ("rng", name, site, w0)
         # mutation through &mut arguments
         argtys = [ctx["cr"].ty((a.get("copy") or a.get("move") or a.get("const"))["ty"]) for a in t["args"]]
         ow = OVERWRITERS.get(p)
@@ -848,7 +868,7 @@ class Interp:
                     if p in RNG:
                         new = ("rng", name, site, width_of(old))
                     else:
-                        new = ("call", name + "#out", others)
+                        new = ("call", name + "#out", others + (("W", width_of(old)),))
                 else:
                     new = ("mut", old, (name, i, others))
                 self.write(path, a[1], new)
@@ -1018,6 +1038,48 @@ class Interp:
                 else:
                     self.write(path, sink, ("mut", old, ("PAE", 0, pieces)))
             return ("unit",)
+        if (p.endswith("encodings::Payload::encode") or p.endswith("encodings::Footer::encode")) and not ce.get("r_path"):
+            kind = "payload" if "Payload" in p else "footer"
+            val = self.argval(path, a0)
+            sink = self.sink_of(path, args[1])
+            self.event(path, "encode", name, ce, args, site, blk, dest_ty, ctx, {"what": kind, "value": val, "sink": sink})
+            if sink is not None:
+                old = self.content(path, sink)
+                self.write(path, sink, concat(old, ("encoded", kind, val)))
+                return ("fallible", ("unit",), name, (val,))
+        if p == "ed25519_dalek::hazmat::raw_sign_byupdate" and len(args) == 3:
+            clo = args[1]
+            cf = None
+            if isinstance(clo, tuple) and clo[0] == "agg" and clo[1].startswith("closure:"):
+                cf = self.w.find_fn(ctx["fn"]["crate"], clo[1][len("closure:"):])
+            if cf is not None:
+                self.w.site_counter += 1
+                h = ("H", ("signmsg", self.w.site_counter))
+                path.store[h] = ("sinkstate", "sign-message")
+                # the closure takes (env, &mut hasher)
+                env_arg = clo
+                l1 = cf["body"]["locals"][1]
+                if cf["_crate"].ty(l1["ty"]).get("k") == "ref":
+                    tl = ("T", clo)
+                    env_arg = ("ptr", tl)
+                rs = self.run(cf, args=[env_arg, ("ptr", h)], path=path, depth=ctx["depth"] + 1, subst=ctx["subst"])
+                oks = [r_ for r_ in rs if r_.kind == "return"]
+                if len(oks) == 1:
+                    if oks[0].path is not path:
+                        path.__dict__.update(oks[0].path.__dict__)
+                    msg = self.content(path, h)
+                    self.event(path, "sign", name, ce, args, site, blk, dest_ty, ctx, {"msg": msg})
+                    return ("call", "ed25519_dalek::hazmat::raw_sign_byupdate", (self.argval(path, a0), msg, self.argval(path, args[2])))
+            return NotImplemented
+        if p == "lc::Signature::append_to_vec" and ce.get("crate") == "paseto_v3_aws_lc" and is_ptr(args[1]):
+            # contract of the FFI serialiser (its body is checked by the C04 / T-FIXW rules): appends r||s
+            loc = ("V", args[1][1])
+            sig = self.argval(path, a0)
+            old = self.content(path, loc)
+            data = ("call", "lc::Signature::to_bytes", (sig,))
+            self.write(path, loc, concat(old, data))
+            self.event(path, "append", name, ce, args, site, blk, dest_ty, ctx, {"data": data, "target": loc})
+            return ("fallible", ("unit",), name, (sig,))
         if p == "core::mem::size_of":
             # size_of::<T>() for local zerocopy structs
             ga = ce.get("args") or []
@@ -1157,12 +1219,12 @@ class Interp:
                 # len - k form
                 m = match_len_minus(n, self.content(path, loc))
                 if m is None:
-                    self.event(path, "split", name, ce, args, site, blk, dest_ty, ctx, {"kind": kind, "n": n, "target": loc, "unknown_mid": True})
+                    self.event(path, "split", name, ce, args, site, blk, dest_ty, ctx, {"how": kind, "n": n, "target": loc, "unknown_mid": True})
                     return ("agg", "tuple", (("ptr", ("R?", loc, "lo", n)), ("ptr", ("R?", loc, "hi", n))))
                 res = ("agg", "tuple", (reg((0, 0), (-m, 1)), reg((-m, 1), (0, 1))))
                 need = m
         self.event(path, "split", name, ce, args, site, blk, dest_ty, ctx,
-                   {"kind": kind, "n": need, "target": loc, "wrap": wrap})
+                   {"how": kind, "n": need, "target": loc, "wrap": wrap})
         if wrap == "plain":
             # split_at panics when out of range; successful return implies length
             self._need(path, loc, need)
@@ -1261,6 +1323,10 @@ def fold_binop(op, a, b):
 
 def field_of(t, i):
     if isinstance(t, tuple) and t:
+        if t[0] == "vec":
+            return ("vecptr", t)
+        if t[0] == "vecptr":
+            return t
         if t[0] == "agg" and i < len(t[2]):
             return t[2][i]
         if t[0] == "with_fields":
@@ -1356,4 +1422,8 @@ def width_of(t):
         return width_of(t[1])
     if k == "vec":
         return width_of(t[1])
+    if k == "call":
+        m = re.search(r"impl Default for GenericArray<u8, U(\d+)>", t[1])
+        if m:
+            return int(m.group(1))
     return None
